@@ -161,3 +161,18 @@ package extendeddaemonset
 //@             sameTemplateScalars(&cast(logobj(k), "*v1.ExtendedDaemonSet").Spec.Template, &current.Spec.Template)
 //@   ensures [C05,C14] active-is-current: current != nil ==> forall k int :: lognew(k) && logverb(k) == "StatusUpdate" ==>
 //@             cast(logobj(k), "*v1.ExtendedDaemonSet").Status.ActiveReplicaSet == current.ObjectMeta.Name
+//@
+//@ import comparison "github.com/DataDog/extendeddaemonset/pkg/controller/utils/comparison"
+//@
+//@ func newReplicaSetFromInstance
+//@   requires daemonset != nil
+//@   modifies mapof(daemonset.ObjectMeta.Annotations)
+//@   let h = comparison.GenerateMD5PodTemplateSpec(&daemonset.Spec.Template)
+//@   ensures result != nil && fresh(result)
+//@   ensures [C13] faithful-hash: result1 == nil ==> result.Spec.TemplateGeneration == fst(h)
+//@             && result.ObjectMeta.Annotations != nil && result.ObjectMeta.Annotations["extendeddaemonset.datadoghq.com/templatehash"] == fst(h)
+//@   ensures [C13] faithful-template: sameTemplateScalars(&result.Spec.Template, &daemonset.Spec.Template)
+//@   ensures [C12,C13] belongs-to-the-daemonset: result.ObjectMeta.Namespace == daemonset.ObjectMeta.Namespace
+//@             && result.ObjectMeta.Labels != nil && result.ObjectMeta.Labels["extendeddaemonset.datadoghq.com/name"] == daemonset.ObjectMeta.Name
+//@   loop 1 invariant forall k string :: (k in labels) ==> k == "extendeddaemonset.datadoghq.com/name" || (k in daemonset.ObjectMeta.Labels)
+//@   loop 1 invariant ("extendeddaemonset.datadoghq.com/name" in labels)
